@@ -474,7 +474,8 @@ def run(chk: Check, replay=None):
     chk.assumptions += ["StlSem.tla (pointer part) transcribes the documentation of the pointer / stack / call macros over an abstract "
                         "store: pointer = signed cell index, buffer = bytes, and every cell of every buffer plus every variable is compared after every step",
                         "pointed cells lie inside the observed buffers (12-cell buffer, first 40 stack cells); pointers are op-aligned",
-                        "the library's shared pointer ops are NOT reset between the steps of a behaviour nor between behaviours"]
+                        "the library's shared pointer ops are NOT reset between the steps of a behaviour nor between behaviours",
+                        "operands of one call are distinct variables, except in the block named hex.ptr_index[dst=ptr] (KF-8)"]
     import os
     part = os.environ.get("FJV_C08_PART")          # development aid: run one part only
     if part:
